@@ -1052,3 +1052,10 @@ Proof.
   - apply find_in_none.
   - intros d. apply lookup_find_in.
 Qed.
+
+(* pages.get_override_info: the member named as overridden is the one attribute lookup finds when the
+   class itself is skipped *)
+Lemma overrides_lookup (h : hier) (ns : namespace) c n d o :
+  overrides h ns c n = Some (d, o) ->
+  lookup (defines_of ns) (d_tail (class_mro h c)) n d /\ contents_get ns d n = Some o.
+Proof. unfold overrides. apply find_in_some. Qed.
